@@ -5,10 +5,11 @@
    [phases y rho]: y and rho have the same length (any number of phases), every y_j >= 0 and
    every rho_j > 0; together with [rsum y = 1] this is "fractions on the simplex, positive
    densities".  closedR y rho = [ (y_j/rho_j) / sum_k (y_k/rho_k) ]_j. *)
-From Coq Require Import List Reals Lra.
+From Coq Require Import List QArith Qreals Reals Lra.
 From Coquelicot Require Import Coquelicot.
 Import ListNotations.
-From PP Require Import Model.C42 Proofs.C42 Proofs.C42_chain.
+From PP Require Import Model.C42 Proofs.C42 Proofs.C42_chain Proofs.C42_unique Proofs.C42_chain2
+  Proofs.C42_transfer.
 Open Scope R_scope.
 
 (* Saturations are non-negative ... *)
@@ -50,15 +51,51 @@ Print Assumptions C42_two_phase_call.
 
 (* n phases: the closed form satisfies, row by row, the linear system the code assembles
    (matrix with zero diagonal and entries rho_j (y_j - 1) - rho_k y_j, right-hand side
-   rho_j (y_j - 1)).  PARTIAL: that this system has no other solution (non-singularity), and
-   that np.linalg.solve returns a solution, is NOT proved here; the tie compares the code's
-   output with the closed form inside Coq on every generated case instead. *)
-Theorem C42_n_phase_partial :
+   rho_j (y_j - 1)) ... *)
+Theorem C42_n_phase_system :
   forall y rho, phases y rho -> rsum y = 1 ->
     forall j, (j < length y)%nat ->
       nth j (mat_vecR (build_matR y rho) (closedR y rho)) 0 = nth j (build_rhsR y rho) 0.
 Proof. exact closed_solves_system. Qed.
-Print Assumptions C42_n_phase_partial.
+Print Assumptions C42_n_phase_system.
+
+(* ... and it is the ONLY solution (two or more phases): the assembled system is uniquely
+   solvable on the simplex. *)
+Theorem C42_n_phase_unique :
+  forall y rho s, phases y rho -> rsum y = 1 -> (2 <= length y)%nat -> length s = length y ->
+    (forall j, (j < length y)%nat ->
+       nth j (mat_vecR (build_matR y rho) s) 0 = nth j (build_rhsR y rho) 0) ->
+    s = closedR y rho.
+Proof. exact system_unique. Qed.
+Print Assumptions C42_n_phase_unique.
+
+(* The whole call for three or more phases, none saturated, every fraction either exactly 0
+   (vanished: dropped by the y > eps filter and scattered back as 0) or > eps: under the
+   contract of np.linalg.solve (a solution is returned whenever one exists) the call returns
+   the closed form. *)
+Theorem C42_n_phase_call :
+  forall solve : list (list R) -> list R -> list R,
+    (forall M b s, length s = length b -> mat_vecR M s = b ->
+                   mat_vecR M (solve M b) = b /\ length (solve M b) = length b) ->
+    forall y rho eps, phases y rho -> rsum y = 1 -> (3 <= length y)%nat ->
+      0 < eps -> eps < 1 / 2 ->
+      List.Forall (fun a => a = 0 \/ eps < a) y -> List.Forall (fun a => a < 1 - eps) y ->
+      satR solve y rho eps = inr (closedR y rho).
+Proof. exact n_phase_call. Qed.
+Print Assumptions C42_n_phase_call.
+
+(* The saturated-phase shortcut (any number >= 2 of phases): if y_j >= 1 - eps the call returns
+   the indicator vector of the saturated phase; it is non-negative, sums to one, is reproduced
+   exactly by the density-weighted ratios and deviates from y by at most eps per component. *)
+Theorem C42_saturated_phase :
+  forall solve y rho eps j, phases y rho -> rsum y = 1 -> (2 <= length y)%nat ->
+    0 < eps -> eps < 1 / 2 -> (j < length y)%nat -> 1 - eps <= nth j y 0 ->
+    let s := ind (satmask eps y) in
+    satR solve y rho eps = inr s /\
+    List.Forall (fun a => 0 <= a) s /\ rsum s = 1 /\ fractions_ofR s rho = s /\
+    forall k, (k < length y)%nat -> Rabs (nth k s 0 - nth k y 0) <= eps.
+Proof. exact saturated_call. Qed.
+Print Assumptions C42_saturated_phase.
 
 (* Chain rule: entry (i,j) of the matrix the code multiplies with is the partial derivative of
    the i-th normalised fraction x_i / sum(x) with respect to x_j (derivative at 0 of
@@ -69,19 +106,36 @@ Theorem C42_chainrule_jacobian :
 Proof. exact dxn_is_jacobian. Qed.
 Print Assumptions C42_chainrule_jacobian.
 
-(* ... and the call returns the leading derivatives unchanged followed by gradient x Jacobian:
-   entry j = sum_i g_i * d(xn_i)/d(x_j), which is the chain rule for f(y, xn(x)).  PARTIAL in
-   this sense: the multivariate chain rule of calculus for an arbitrary differentiable f is not
-   re-proved; the statement is that the code forms exactly that sum with exactly those partial
-   derivatives.  Too short a gradient is rejected. *)
-Theorem C42_chainrule_partial :
+(* ... the call returns the leading derivatives unchanged followed by gradient x Jacobian:
+   entry j = sum_i g_i * dxn[i][j] ... *)
+Theorem C42_chainrule_output :
   forall df x, (length x <= length df)%nat ->
     let n := length x in let k := (length df - n)%nat in
     chainruleR df x =
     inr (firstn k df ++
          map (fun j => rsum (map2 (fun gi row => gi * nth j row 0) (skipn k df) (dxnR x))) (seq 0 n)).
 Proof. exact chainrule_output. Qed.
-Print Assumptions C42_chainrule_partial.
+Print Assumptions C42_chainrule_output.
+
+(* ... and that entry IS the derivative of the composed function: for every outer function f
+   that is differentiable at the normalised point with gradient g (it obeys the chain rule
+   along every componentwise differentiable curve through that point, as every
+   Frechet-differentiable function does), d/de f(normalize(x + e unit_j)) at e = 0 equals
+   sum_i g_i * dxn[i][j]. *)
+Theorem C42_chainrule_composed :
+  forall f x g j, rsum x <> 0 -> (j < length x)%nat ->
+    differentiable_at f (normalizeR x) g ->
+    is_derive (fun e => f (normalizeR (add_at j e x))) 0
+              (rsum (map2 (fun gi row => gi * nth j row 0) g (dxnR x))).
+Proof. exact chainrule_composed. Qed.
+Print Assumptions C42_chainrule_composed.
+
+(* the differentiability hypothesis is satisfiable: every affine function c0 + g . v *)
+Theorem C42_affine_differentiable :
+  forall c0 g z, length g = length z ->
+    differentiable_at (fun v => c0 + rsum (map2 Rmult g v)) z g.
+Proof. exact affine_differentiable. Qed.
+Print Assumptions C42_affine_differentiable.
 
 Theorem C42_chainrule_short_rejected :
   forall df x, (length df < length x)%nat -> chainruleR df x = inl ValueErr.
@@ -94,6 +148,55 @@ Theorem C42_normalize_rows :
     List.Forall (fun row => rsum row = 1) (normalize_rowsR m).
 Proof. exact normalize_rows_sum_one. Qed.
 Print Assumptions C42_normalize_rows.
+
+(* Transfer: the Q instance executed by the tie and the R instance of the theorems are the same
+   functions through the embedding Q2R (QR = map Q2R, QRres maps it under the error sum):
+   compute_saturations (given that the two solvers agree and the two-phase formula does not
+   divide by zero), the closed form, the chain rule and row normalisation. *)
+Theorem C42_transfer_saturations :
+  forall solveR y rho eps,
+    (forall M b, QR (solveQ M b) = solveR (map QR M) (QR b)) ->
+    (forall y0 y1 r0 r1, y = [y0; y1] -> rho = [r0; r1] ->
+       nz (1 - y1)%Q /\ nz r1 /\ nz (1 + y1 / (1 - y1) * (r0 / r1))%Q) ->
+    QRres (sat_Q y rho eps) = satR solveR (QR y) (QR rho) (Q2R eps).
+Proof. exact sat_QR. Qed.
+Print Assumptions C42_transfer_saturations.
+
+Theorem C42_transfer_closed :
+  forall y rho, List.Forall nz rho -> nz (tsum Q 0%Q Qplus (map2 Qdiv y rho)) ->
+    QR (closed_Q y rho) = closedR (QR y) (QR rho).
+Proof. exact closed_QR. Qed.
+Print Assumptions C42_transfer_closed.
+
+Theorem C42_transfer_chainrule :
+  forall df x, nz (tsum Q 0%Q Qplus x) -> QRres (chainrule_Q df x) = chainruleR (QR df) (QR x).
+Proof. exact chainrule_QR. Qed.
+Print Assumptions C42_transfer_chainrule.
+
+Theorem C42_transfer_normalize_rows :
+  forall m, List.Forall (fun row => nz (tsum Q 0%Q Qplus row)) m ->
+    map QR (normalize_rows_Q m) = normalize_rowsR (map QR m).
+Proof. exact normalize_rows_QR. Qed.
+Print Assumptions C42_transfer_normalize_rows.
+
+(* Non-vacuity of the new hypotheses: a saturated three-phase input; a three-phase input with a
+   vanished phase satisfying the data hypotheses of C42_n_phase_call, and a solution vector for
+   C42_n_phase_unique. *)
+Example C42_nonvacuous_2 :
+  (phases [19/20; 1/20; 0] [1; 2; 4] /\ rsum [19/20; 1/20; 0] = 1 /\ 1 - 1/10 <= nth 0 [19/20; 1/20; 0] 0) /\
+  (phases [1/2; 0; 1/4; 1/4] [1; 3; 2; 4] /\ rsum [1/2; 0; 1/4; 1/4] = 1 /\
+   List.Forall (fun a => a = 0 \/ 1/10 < a) [1/2; 0; 1/4; 1/4] /\
+   List.Forall (fun a => a < 1 - 1/10) [1/2; 0; 1/4; 1/4]) /\
+  (exists s, length s = 3%nat /\
+     forall j, (j < 3)%nat ->
+       nth j (mat_vecR (build_matR [1/2; 1/4; 1/4] [1; 2; 4]) s) 0 = nth j (build_rhsR [1/2; 1/4; 1/4] [1; 2; 4]) 0).
+Proof.
+  split; [|split].
+  - split; [repeat constructor; lra|]. split; cbn; lra.
+  - split; [repeat constructor; lra|]. split; [cbn; lra|]. split; repeat constructor; lra.
+  - exists (closedR [1/2; 1/4; 1/4] [1; 2; 4]). split; [reflexivity|].
+    intros j Hj. apply closed_solves_system; [repeat constructor; lra|cbn; lra|exact Hj].
+Qed.
 
 (* Non-vacuity: three phases on the simplex with positive densities; the closed form. *)
 Example C42_nonvacuous :
